@@ -266,7 +266,7 @@ func phaseMain(root string) {
 		if _, err := os.Stat(f); err != nil {
 			continue
 		}
-		alive = append(alive, s.Name)
+		alive = append(alive, s.Kind+":"+s.Expr)
 		fmt.Fprintf(&sb, "\tcorr.RegisterShape(\"grammar\", %q, decl.%s{}, decl_ins.%sInspector{}, %q, %q, %q)\n", s.Name, s.Name, s.Name,
 			filepath.Join(root, "xml", "decl", strings.ToLower(s.Name)+".xml"), s.Expr, s.Family)
 	}
